@@ -508,7 +508,288 @@ fn c09_barrier() {
     });
 }
 
+/// the 0.5 ms starvation test answers "yes" at every evaluation point (hook H1): all waiters use
+/// the fair loop
+fn starve_always() {
+    async_lock::__verif::set_starvation_oracle(Some(Box::new(|| true)));
+}
+
+/// three lock().await, every waiter starved (fair loop)
+fn c05_starved() {
+    model(3, || {
+        let m = Arc::new(Mutex::new(Cell::new(0)));
+        let hs: Vec<_> = (0..2)
+            .map(|_| {
+                let m = m.clone();
+                thread::spawn(move || {
+                    starve_always();
+                    let g = block_on(m.lock());
+                    bump(&g);
+                })
+            })
+            .collect();
+        {
+            starve_always();
+            let g = block_on(m.lock());
+            bump(&g);
+        }
+        for h in hs {
+            h.join().unwrap();
+        }
+        assert_eq!(peek(&m.try_lock().unwrap()), 3);
+    });
+}
+
+/// a holder and two starved waiters; the holder unlocks while they are inside their polls
+fn c05_starved_held() {
+    model(3, || {
+        let m = Arc::new(Mutex::new(Cell::new(0)));
+        let g = m.try_lock().unwrap();
+        let hs: Vec<_> = (0..2)
+            .map(|_| {
+                let m = m.clone();
+                thread::spawn(move || {
+                    starve_always();
+                    let g = block_on(m.lock());
+                    bump(&g);
+                })
+            })
+            .collect();
+        bump(&g);
+        drop(g);
+        for h in hs {
+            h.join().unwrap();
+        }
+        assert_eq!(peek(&m.try_lock().unwrap()), 3);
+    });
+}
+
+/// a holder that releases, barges in again with try_lock and releases again, against two waiters
+/// that turn starved as soon as they lose a race
+fn c05_barge() {
+    model(3, || {
+        let m = Arc::new(Mutex::new(Cell::new(0)));
+        let g = m.try_lock().unwrap();
+        let hs: Vec<_> = (0..2)
+            .map(|_| {
+                let m = m.clone();
+                thread::spawn(move || {
+                    starve_always();
+                    let g = block_on(m.lock());
+                    bump(&g);
+                })
+            })
+            .collect();
+        drop(g);
+        if let Some(g2) = m.try_lock() {
+            bump(&g2);
+        }
+        for h in hs {
+            h.join().unwrap();
+        }
+        assert!(peek(&m.try_lock().unwrap()) >= 2);
+    });
+}
+
+// ---------------------------------------------------------------- blocking forms
+
+/// lock_blocking in two threads
+fn c01_blocking() {
+    model(2, || {
+        let m = Arc::new(Mutex::new(Cell::new(0)));
+        let m2 = m.clone();
+        let h = thread::spawn(move || {
+            let g = m2.lock_blocking();
+            bump(&g);
+        });
+        {
+            let g = m.lock_blocking();
+            bump(&g);
+        }
+        h.join().unwrap();
+        assert_eq!(peek(&m.try_lock().unwrap()), 2);
+    });
+}
+
+/// write_blocking against read_blocking
+fn c02_blocking() {
+    model(2, || {
+        let l = Arc::new(RwLock::new(Cell::new(0)));
+        let l2 = l.clone();
+        let h = thread::spawn(move || {
+            let g = l2.write_blocking();
+            bump(&g);
+        });
+        {
+            let g = l.read_blocking();
+            assert!(peek(&g) <= 1);
+        }
+        h.join().unwrap();
+        assert_eq!(peek(&l.try_read().unwrap()), 1);
+    });
+}
+
+/// upgradable_read_blocking + upgrade_blocking against a blocking writer
+fn c11_blocking() {
+    model(2, || {
+        let l = Arc::new(RwLock::new(Cell::new(0)));
+        let l2 = l.clone();
+        let h = thread::spawn(move || {
+            let g = l2.write_blocking();
+            bump(&g);
+        });
+        {
+            let u = l.upgradable_read_blocking();
+            let _ = peek(&u);
+            let w = RwLockUpgradableReadGuard::upgrade_blocking(u);
+            bump(&w);
+            let r = RwLockWriteGuard::downgrade(w);
+            let _ = peek(&r);
+        }
+        h.join().unwrap();
+        assert_eq!(peek(&l.try_read().unwrap()), 2);
+    });
+}
+
+/// acquire_blocking on one permit
+fn c03_blocking() {
+    model(2, || {
+        let s = Arc::new(Semaphore::new(1));
+        let c = Arc::new(Cell::new(0));
+        let (s2, c2) = (s.clone(), c.clone());
+        let h = thread::spawn(move || {
+            let g = s2.acquire_blocking();
+            bump(&c2);
+            drop(g);
+        });
+        {
+            let g = s.acquire_blocking();
+            bump(&c);
+            drop(g);
+        }
+        h.join().unwrap();
+        assert_eq!(peek(&c), 2);
+    });
+}
+
+/// wait_blocking on a barrier of two
+fn c09_blocking() {
+    model(2, || {
+        let b = Arc::new(Barrier::new(2));
+        let b2 = b.clone();
+        let h = thread::spawn(move || b2.wait_blocking().is_leader());
+        let me = b.wait_blocking().is_leader();
+        let other = h.join().unwrap();
+        assert!(me ^ other, "exactly one leader");
+    });
+}
+
+/// wait_blocking / set_blocking on a OnceCell
+fn c08_blocking() {
+    model(2, || {
+        let cell = Arc::new(OnceCell::<usize>::new());
+        let c2 = cell.clone();
+        let h = thread::spawn(move || *c2.wait_blocking());
+        let _ = cell.set_blocking(4);
+        assert_eq!(h.join().unwrap(), 4);
+    });
+}
+
+// ---------------------------------------------------------------- cancellation races (C10)
+
+fn poll_once<F: Future>(f: std::pin::Pin<&mut F>) -> Poll<F::Output> {
+    struct Noop;
+    impl Wake for Noop {
+        fn wake(self: std::sync::Arc<Self>) {}
+    }
+    let w = Waker::from(std::sync::Arc::new(Noop));
+    f.poll(&mut Context::from_waker(&w))
+}
+
+/// a pending lock() is cancelled while another thread unlocks: the wake-up must reach the third
+fn c10_mutex_cancel() {
+    model(2, || {
+        let m = Arc::new(Mutex::new(Cell::new(0)));
+        let g = m.try_lock().unwrap();
+        let m1 = m.clone();
+        let h1 = thread::spawn(move || {
+            let mut f = Box::pin(m1.lock());
+            if let Poll::Ready(g) = poll_once(f.as_mut()) {
+                bump(&g);
+            }
+            // cancelled here if it was pending
+        });
+        let m2 = m.clone();
+        let h2 = thread::spawn(move || {
+            let g = block_on(m2.lock());
+            bump(&g);
+        });
+        bump(&g);
+        drop(g);
+        h1.join().unwrap();
+        h2.join().unwrap();
+        assert!(peek(&m.try_lock().unwrap()) >= 2);
+    });
+}
+
+/// a pending write() is cancelled while a reader leaves and another reader waits behind the bit
+fn c10_rw_cancel() {
+    model(2, || {
+        let l = Arc::new(RwLock::new(Cell::new(0)));
+        let r = l.try_read().unwrap();
+        let l1 = l.clone();
+        let h1 = thread::spawn(move || {
+            let mut f = Box::pin(l1.write());
+            if let Poll::Ready(g) = poll_once(f.as_mut()) {
+                bump(&g);
+            }
+        });
+        let l2 = l.clone();
+        let h2 = thread::spawn(move || {
+            let g = block_on(l2.read());
+            let _ = peek(&g);
+        });
+        let _ = peek(&r);
+        drop(r);
+        h1.join().unwrap();
+        h2.join().unwrap();
+    });
+}
+
+/// a pending acquire() is cancelled while the permit is released
+fn c10_sem_cancel() {
+    model(2, || {
+        let s = Arc::new(Semaphore::new(1));
+        let g = s.try_acquire().unwrap();
+        let s1 = s.clone();
+        let h1 = thread::spawn(move || {
+            let mut f = Box::pin(s1.acquire());
+            let _ = poll_once(f.as_mut());
+        });
+        let s2 = s.clone();
+        let h2 = thread::spawn(move || {
+            let _g = block_on(s2.acquire());
+        });
+        drop(g);
+        h1.join().unwrap();
+        h2.join().unwrap();
+        assert!(s.try_acquire().is_some());
+    });
+}
+
 const ALL: &[(&str, fn())] = &[
+    ("c05_starved", c05_starved),
+    ("c05_barge", c05_barge),
+    ("c05_starved_held", c05_starved_held),
+    ("c01_blocking", c01_blocking),
+    ("c02_blocking", c02_blocking),
+    ("c11_blocking", c11_blocking),
+    ("c03_blocking", c03_blocking),
+    ("c09_blocking", c09_blocking),
+    ("c08_blocking", c08_blocking),
+    ("c10_mutex_cancel", c10_mutex_cancel),
+    ("c10_rw_cancel", c10_rw_cancel),
+    ("c10_sem_cancel", c10_sem_cancel),
     ("c05_three", c05_three),
     ("c06_mix", c06_mix),
     ("c07_three", c07_three),
